@@ -187,6 +187,17 @@ pub fn counted_slice<T: Decode>(data: &[u8]) -> (bool, u64, usize) {
 	(ok, count, data.len() - input.len())
 }
 
+/// `Decode::skip` (instead of `decode`) through a `CountedInput` over a slice.
+pub fn counted_skip_slice<T: Decode>(data: &[u8]) -> (bool, u64, usize) {
+	let mut input = data;
+	let (ok, count) = {
+		let mut c = crate::codec::CountedInput::new(&mut input);
+		let r = T::skip(&mut c);
+		(r.is_ok(), c.count())
+	};
+	(ok, count, data.len() - input.len())
+}
+
 #[derive(Debug, Clone)]
 pub struct MemOut {
 	pub result: DecRes,
@@ -293,6 +304,7 @@ pub struct Entry {
 	pub decode_len: Option<fn(&[u8]) -> Option<usize>>,
 	/// decode through `CountedInput` over a slice: (ok, count(), bytes consumed from the slice)
 	pub counted: Option<fn(&[u8]) -> (bool, u64, usize)>,
+	pub counted_skip: Option<fn(&[u8]) -> (bool, u64, usize)>,
 }
 
 impl Entry {
@@ -322,6 +334,7 @@ impl Entry {
 			cel: false,
 			decode_len: None,
 			counted: None,
+			counted_skip: None,
 		}
 	}
 	pub fn enc<T: Modeled + Encode>(mut self) -> Entry {
@@ -348,6 +361,7 @@ impl Entry {
 		self.decode_all_depth = Some(decode_all_depth_slice::<T>);
 		self.probe = Some(decode_probe::<T>);
 		self.counted = Some(counted_slice::<T>);
+		self.counted_skip = Some(counted_skip_slice::<T>);
 		self
 	}
 	pub fn len<T: crate::codec::DecodeLength>(mut self) -> Entry {
